@@ -158,10 +158,12 @@ class GaussianMixture:
             means[k] = X[np.searchsorted(cumsum, r)]
 
         # Initialize responsibilities and compute initial parameters
-        responsibilities = np.zeros((n_samples, self.n_components))
+        distances = np.zeros((n_samples, self.n_components))
         for k in range(self.n_components):
-            distances = np.sum((X - means[k]) ** 2, axis=1)
-            responsibilities[:, k] = np.exp(-0.5 * distances)
+            distances[:, k] = np.sum((X - means[k]) ** 2, axis=1)
+        # Shift by the nearest-centre distance so that exp() cannot underflow to 0/0
+        distances -= np.min(distances, axis=1, keepdims=True)
+        responsibilities = np.exp(-0.5 * distances)
         responsibilities /= np.sum(responsibilities, axis=1, keepdims=True)
 
         # Compute initial weights and covariances
